@@ -57,8 +57,9 @@ func (m *Model) AddWasteRecord(wr *traits.WasteRecord, opts ...resource.WriteOpt
 	}
 	m.mu.Lock()
 	defer m.mu.Unlock()
-	m.allWasteRecords = append(m.allWasteRecords, wr)
-	return v.(*traits.WasteRecord), nil
+	stored := v.(*traits.WasteRecord) // the record as it was stored, not the caller's message
+	m.allWasteRecords = append(m.allWasteRecords, stored)
+	return stored, nil
 }
 
 // GenerateWasteRecord generates a new waste record with the given timestamp and adds it to the model
